@@ -1159,7 +1159,9 @@ struct Run {
             impl.tok("contract");
             return true;
         }
-        if (!(first <= last && last <= content.n)) { return false; }   // undefined behaviour: never executed
+        // a pair that is not a range of the string stops at the precondition (377d1df); std: undefined, no reference
+        bool const valid = first <= last && last <= content.n;
+        if (first > Cap + 1 || last > Cap + 1) { return false; }   // the iterators themselves must be formable
         E e(static_cast<Char const*>(content.p), content.n);
         S r(content.p, content.n);
         auto rf = [&] { return r.cbegin() + static_cast<std::ptrdiff_t>(first); };
@@ -1172,7 +1174,7 @@ struct Run {
                 o.tok("ok");
                 put_state(o, e);
             });
-            if (cnt2 <= 100000) {
+            if (valid && cnt2 <= 100000) {
                 r.replace(rf(), rl(), cnt2, ch);
                 if (r.size() <= Cap) {
                     ref.tok("ok");
@@ -1206,6 +1208,7 @@ struct Run {
             o.tok("ok");
             put_state(o, e);
         });
+        if (!valid) { return true; }
         if (op == "replacei") {
             r.replace(rf(), rl(), S(src.p, src.n));
         } else if (op == "replaceip") {
@@ -1241,7 +1244,8 @@ struct Run {
             return true;
         }
         bool const iter = op == "replaceis" || op == "replaceips" || op == "replaceizs";
-        if (iter && !(a <= b && b <= content.n)) { return false; }
+        bool const valid = !iter || (a <= b && b <= content.n);
+        if (iter && (a > Cap + 1 || b > Cap + 1)) { return false; }
         if (op != "replace5s" && (off > content.n || (op != "replacezs" && op != "replaceizs" && cnt2 > content.n - off))) { return false; }
         E e(static_cast<Char const*>(content.p), content.n);
         S r(content.p, content.n);
@@ -1257,7 +1261,7 @@ struct Run {
             o.tok("ok");
             put_state(o, e);
         });
-        if (iter || (a <= r.size() && (op != "replace5s" || off <= r.size()))) {
+        if ((iter && valid) || (!iter && a <= r.size() && (op != "replace5s" || off <= r.size()))) {
             auto rf = [&] { return r.cbegin() + static_cast<std::ptrdiff_t>(a); };
             auto rl = [&] { return r.cbegin() + static_cast<std::ptrdiff_t>(b); };
             Char const* p = r.data() + (op == "replace5s" ? 0 : off);
